@@ -303,3 +303,11 @@ def check_zero_copy_getters(ctx, rule):
                    "(once released, a concurrent enqueue can allocate and overwrite the slot)")
     if n < 2:
         raise F.InfraError(f"{rule}: zero-copy consume bodies not found")
+
+
+def _walk_all(e, depth=0):
+    """every sub-expression of e, e included; also follows a `ref?` to a local's place expression"""
+    if isinstance(e, tuple) and depth < 40:
+        yield e
+        for x in e:
+            if isinstance(x, tuple): yield from _walk_all(x, depth + 1)
